@@ -70,7 +70,8 @@ def pre_build(ctx):
 def run(ctx):
     import gen_units
     gen_units.g_unit(ctx, "translate_shc")
-    core_units.run(ctx, which="C09")
+    import common as _common
+    _common.guarded(ctx, "K/S-units", core_units.run, ctx, which="C09")
     ctx.assumptions.append("the first sentence of the property is statistical: it is decided by the paired sign test below (monitor), not by a theorem")
     ctx.monitor_rule = ("per optimizer: unimodal landscapes f with the optimum near a corner (1-3 dims, negative / positive / mixed score "
                         "ranges); for each seed the mean f-value of the second half of the run maximising f must exceed that of the "
